@@ -100,6 +100,10 @@ def check_text(case, stats):
     if gh.names_existing_path(text):
         stats.label("excluded_known_F1")
         return
+    if case.get("prev") is not None and not gh.names_existing_path(case["prev"]):
+        # an earlier parse in the same process, aborted at its first error (possibly while look-ahead lines are queued),
+        # must not leak anything into this one
+        gh.parse(case["prev"], case.get("prev_default", "en"), stop=True)
     b = RecordingAstBuilder()
     real = gh.parse(text, dflt, builder=b)
     n = len(split_lines(text))
@@ -117,8 +121,28 @@ def check_text(case, stats):
 
 def unit_noisy(a):
     stats = Stats()
-    strat = noisy.st_noisy().map(lambda x: {"sub": "text", "text": x[0], "default": x[1], "label": x[2]})
+    from hypothesis import strategies as st
+    strat = st.tuples(noisy.st_noisy(), noisy.st_noisy(900)).map(lambda x: {"sub": "text", "text": x[0][0], "default": x[0][1], "label": x[0][2], "prev": x[1][0], "prev_default": x[1][1]})
     hyp(stats, strat, check_text, a["n"], shard_seed(a["seed"], a["shard"], 18))
+    return stats
+
+
+def unit_prev_combos(a):
+    """every short fault combination parsed in stop mode (aborted at its first error) right before a valid document"""
+    import itertools
+    from .c14 import BLOCKS, BLOCK_NAMES
+    stats = Stats()
+    nexts = ["Feature: g\n @t\n Scenario: s\n  Given x\n", "Feature: g\n Scenario Outline: o\n  Given <a>\n @e\n\n Examples:\n  | a |\n  | 1 |\n", "@f\nFeature: g\n"]
+
+    def gen():
+        for L in (1, 2):
+            for combo in itertools.product(BLOCK_NAMES, repeat=L):
+                lines = ["Feature: f", " Scenario: s", "  Given x"]
+                for b in combo:
+                    lines += BLOCKS[b]
+                for nx in nexts:
+                    yield {"sub": "text", "label": "after-aborted-parse", "prev": "\n".join(lines) + "\n", "text": nx}
+    sweep(stats, gen(), check_text)
     return stats
 
 
@@ -179,6 +203,7 @@ def run(ctx):
     ns = 16
     ctx.units("golden-token-listings", unit_golden, [{}])
     ctx.units("kind-sequences-exhaustive", unit_kinds, [{"L": L, "shard": i, "nshards": ns} for i in range(ns)], procs=ns)
+    ctx.units("after-aborted-parse", unit_prev_combos, [{}])
     ctx.units("real-text", unit_noisy, [{"n": 500 if q else 8000, "seed": ctx.seed, "shard": i} for i in range(4 if q else 16)], procs=16)
     ctx.units("model-token-listings", unit_listing, [{"n": 400 if q else 5000, "seed": ctx.seed, "shard": i} for i in range(4 if q else 16)], procs=16)
     ctx.exhaustive = False
